@@ -8,7 +8,8 @@
      - every operation is one atomic step (the model mutex), so a concurrent execution is a
        schedule over whole operations (theorems C19_concurrent_is_sequential, C19_concurrent_invariants). *)
 From SC Require Import Base.Prelude Electric.Model Electric.ModelProofs Electric.C19Judge Electric.JudgeProofs
-  Electric.ConcStreamProofs Electric.Config Electric.ConfigProofs Electric.UpdateOpts Electric.UpdateOptsProofs Electric.LockDefs Electric.Fine Gen.ElectricLocks Electric.FineProofs.
+  Electric.ConcStreamProofs Electric.Config Electric.ConfigProofs Electric.UpdateOpts Electric.UpdateOptsProofs Electric.LockDefs Electric.Fine Gen.ElectricLocks Electric.FineProofs
+  Electric.RefineProofs Electric.FineResults Electric.StreamConfigProofs.
 
 (* 1. at most one mode is marked normal, after any sequence of operations *)
 Theorem C19_at_most_one_normal : forall initial ops, wf_initial initial ->
@@ -374,6 +375,152 @@ Example C19_update_options_nonvacuous :
   snd (fst (update_w true [] (mkM "x" "T" false None) (mkW (Some ["title"%string]) false None))) = cNotFound /\
   snd (fst (update_w true [] (mkM "x" "T" false None) (mkW None true (Some ["bogus"%string])))) = cInternal.
 Proof. exact update_w_nonvacuous. Qed.
+
+(* ------------------------------------------------------------------ final wave: gaps of notes/C19.md closed *)
+(* (a) ONE model of the update path: [do_update] - what [step] runs for OUpdate/SUpdate, on the list
+   of bodies - is [update_w] of Electric/UpdateOpts.v (keys apart from the bodies) restricted to a plain
+   mask, under the abstraction [kstore_of] = every body under its own id; for every state, message
+   and mask, and for all sequences; every keyed store is such an abstraction. *)
+Theorem C19_update_refines_options : forall s m mask,
+  update_w true (kstore_of (modes s)) m (plain mask) =
+    (kstore_of (modes (fst (do_update true s m mask))),
+     rcode (snd (do_update true s m mask)), rret (snd (do_update true s m mask))) /\
+  step s 0 (OUpdate m mask) = do_update true s m mask.
+Proof. intros s m mask. split; [apply update_w_plain_is_do_update|reflexivity]. Qed.
+Print Assumptions C19_update_refines_options.
+
+Theorem C19_update_refines_options_keyed : forall l a ch m mask, keyed l ->
+  let sr := do_update true (mkState (bodies l) a ch) m mask in
+  update_w true l m (plain mask) = (kstore_of (modes (fst sr)), rcode (snd sr), rret (snd sr)).
+Proof. exact update_w_plain_on_keyed. Qed.
+Print Assumptions C19_update_refines_options_keyed.
+
+Theorem C19_update_refines_options_run : forall us now s,
+  fold_left (fun l u => fst (fst (update_w true l (fst u) (plain (snd u))))) us (kstore_of (modes s)) =
+  kstore_of (modes (run s (map (upd_op now) us))).
+Proof. exact updates_plain_refine. Qed.
+Print Assumptions C19_update_refines_options_run.
+
+Example C19_update_refines_nonvacuous :
+  let s := mkState [mkM "a" "A" true None; mkM "b" "B" false None] blank false in
+  update_w true (kstore_of (modes s)) (mkM "b" "Z" false None) (plain (Some ["title"%string]))
+    = ([("a"%string, mkM "a" "A" true None); ("b"%string, mkM "b" "Z" false None)], 0, Some (mkM "b" "Z" false None)) /\
+  do_update true s (mkM "b" "Z" false None) (Some ["title"%string])
+    = (mkState [mkM "a" "A" true None; mkM "b" "Z" false None] blank false, ok_ (Some (mkM "b" "Z" false None))) /\
+  snd (fst (update_w true (kstore_of (modes s)) (mkM "b" "" true None) (plain None))) = cAlreadyExists /\
+  rcode (snd (do_update true s (mkM "b" "" true None) None)) = cAlreadyExists.
+Proof. exact update_refine_nonvacuous. Qed.
+
+(* (b) clause 6 without the "id is non-empty" guard of C19_delete_absent: deleting an absent id never
+   changes the state and its result is decided completely - FailedPrecondition exactly when no
+   activating call has succeeded yet AND the id is that of the configured active value (the empty id
+   for a default model), else NotFound / success with allow-missing; the rpc rejects the empty id first. *)
+Theorem C19_delete_absent_exact : forall a0 s now id allow, InvG a0 s -> has id (modes s) = false ->
+  step s now (ODelete id allow) =
+    (s, if String.eqb id (mid (active s)) then err_ cFailedPrecondition
+        else if allow then ok_ None else err_ cNotFound) /\
+  step s now (SDelete id allow) =
+    (s, if is_empty id then err_ cInvalidArgument
+        else if String.eqb id (mid (active s)) then err_ cFailedPrecondition
+        else if allow then ok_ None else err_ cNotFound) /\
+  (String.eqb id (mid (active s)) = true <-> changed s = false /\ id = mid a0).
+Proof. intros a0. exact (@delete_absent_exact a0). Qed.
+Print Assumptions C19_delete_absent_exact.
+
+Theorem C19_delete_absent_once_changed : forall a0 s now id allow, InvG a0 s ->
+  changed s = true -> has id (modes s) = false ->
+  step s now (ODelete id allow) = (s, if allow then ok_ None else err_ cNotFound).
+Proof. intros a0. exact (@delete_absent_once_changed a0). Qed.
+Print Assumptions C19_delete_absent_once_changed.
+
+Example C19_delete_absent_exact_nonvacuous :
+  Inv (init_state []) /\ has EmptyString (modes (init_state [])) = false /\
+  step (init_state []) 1 (ODelete EmptyString true) = (init_state [], err_ cFailedPrecondition) /\
+  step (init_state []) 1 (ODelete "x"%string true) = (init_state [], ok_ None) /\
+  step (init_state []) 1 (ODelete "x"%string false) = (init_state [], err_ cNotFound).
+Proof. exact delete_absent_exact_nonvacuous. Qed.
+
+(* (c) the RESULTS of the calls are part of the atomicity theorem (Electric/FineResults.v): the fine
+   execution logs (thread, result) when a call reaches its return and releases Model.mu, the coarse
+   schedule logs the results of [step].  Any number of threads, ANY interleaving of single resource
+   calls: same pending operations, same state, same log; while a call is in progress the coarse log
+   is one entry ahead - the result that call returns when run alone. *)
+Theorem C19_fine_grained_results : forall fsched threads s0,
+  let c := frun fsched (finit threads s0) in
+  let l := snd (frun_log fsched (finit threads s0, [])) in
+  exists sched,
+    let cl := snd (crun_log sched ((threads, s0), [])) in
+    map pending (fths c) = fst (crun sched (threads, s0)) /\
+    match fowner c with
+    | None => fstate c = run_sched sched threads s0 /\ l = cl
+    | Some i => exists p r tr rs, nth_error (fths c) i = Some (TIn p r) /\
+                                  runs p (fstate c) tr (run_sched sched threads s0) rs /\
+                                  cl = (l ++ [(i, rs)])%list
+    end.
+Proof. exact fine_results_are_coarse. Qed.
+Print Assumptions C19_fine_grained_results.
+
+(* ... at quiescence: what the calls returned, in the order they returned, is what the sequential
+   run of an interleaving of the threads returns, and the state is its final state *)
+Theorem C19_fine_grained_results_sequential : forall fsched threads s0,
+  let c := frun fsched (finit threads s0) in
+  let l := snd (frun_log fsched (finit threads s0, [])) in
+  fowner c = None ->
+  exists ops, interleaves threads ops /\ fstate c = run s0 ops /\
+              map snd l = map snd (trace_gen step s0 ops).
+Proof. exact fine_results_sequential. Qed.
+Print Assumptions C19_fine_grained_results_sequential.
+
+(* a program run alone has one outcome, and it is the atomic step's: strengthens
+   C19_programs_are_steps from "there is a run ending in step's state and result" to "every run does" *)
+Theorem C19_program_runs_only_step : forall now o s tr s' r,
+  runs (prog_of now o) s tr s' r -> s' = fst (step s now o) /\ r = snd (step s now o).
+Proof. exact prog_runs_only_step. Qed.
+Print Assumptions C19_program_runs_only_step.
+
+Theorem C19_fine_log_is_fine_run : forall sched c l, fst (frun_log sched (c, l)) = frun sched c.
+Proof. exact frun_log_fst. Qed.
+Print Assumptions C19_fine_log_is_fine_run.
+
+Example C19_fine_grained_results_nonvacuous :
+  let cl := frun_log [0; 1; 0; 1; 0; 1; 0; 1; 1; 1; 1]%nat (finit race_threads (init_state race_initial), []) in
+  fowner (fst cl) = None /\
+  map (fun p => (fst p, rcode (snd p))) (snd cl) = [(0%nat, 0); (1%nat, cFailedPrecondition)] /\
+  let cl' := frun_log [1; 0; 1; 0; 1; 0; 1; 0; 0; 0; 0]%nat (finit race_threads (init_state race_initial), []) in
+  fowner (fst cl') = None /\
+  map (fun p => (fst p, rcode (snd p))) (snd cl') = [(1%nat, 0); (0%nat, cNotFound)].
+Proof. exact fine_results_nonvacuous. Qed.
+
+(* (d) configurations x concurrency x streams: from EVERY option list NewModel accepts, the invariant
+   (and the well-formedness of the keyed store) holds under any fine-grained schedule whenever no call
+   is in progress; and the stream theorem holds for every history from every configuration. *)
+Theorem C19_config_fine_grained_invariants : forall opts s0 fsched threads, new_model opts = Some s0 ->
+  normal_count (cfg_records opts) <= 1 ->
+  let c := frun fsched (finit threads s0) in
+  fowner c = None ->
+  InvG (cfg_active opts) (fstate c) /\ wf_store (kstore_of (modes (fstate c))).
+Proof. exact config_fine_invariants. Qed.
+Print Assumptions C19_config_fine_grained_invariants.
+
+Theorem C19_config_streams_follow_model : forall opts s0 steps, new_model opts = Some s0 ->
+  normal_count (cfg_records opts) <= 1 ->
+  let me := fst (predict s0 (active s0) steps) in
+  let ae := snd (predict s0 (active s0) steps) in
+  views_ok (modes s0) me = true /\
+  fold_left apply_event me (modes s0) = modes (run s0 steps) /\
+  lastd ae (cfg_active opts) = active (run s0 steps) /\
+  (ae <> [] -> changed (run s0 steps) = true /\ has (mid (active (run s0 steps))) (modes (run s0 steps)) = true).
+Proof. exact config_streams_follow_model. Qed.
+Print Assumptions C19_config_streams_follow_model.
+
+Example C19_config_streams_nonvacuous :
+  let opts := [CClock 1; CInitial [ma]; CActive false mb; CInitial [mc; mb]; CRng] in
+  exists s0, new_model opts = Some s0 /\ normal_count (cfg_records opts) <= 1 /\ active s0 = mb /\
+  let steps := [(10, OAdd (mkM "x" "X" false None)); (20, SClear); (30, ODelete "x"%string false)] in
+  fst (predict s0 (active s0) steps) =
+    [MAdd (mkM "x" "X" false None); MRemove (mkM "x" "X" false None)] /\
+  snd (predict s0 (active s0) steps) = [mkM "a" "normal" true (Some 20)].
+Proof. exact config_streams_nonvacuous. Qed.
 
 (* Print Assumptions for every theorem above that did not have its own line yet *)
 Print Assumptions C19_clear_rpc_is_clear.
